@@ -175,6 +175,28 @@ func (w *world) randValset() valset {
 	return w.mkValset(perm, pows)
 }
 
+// forcedTemplate >= 0: every interleaving template started is this one, and templates start far more often
+var forcedTemplate = -1
+
+func templateEvery() int {
+	if forcedTemplate >= 0 {
+		return 3
+	}
+	return 12
+}
+
+// wideValset: seven or eight validators of nearly equal power - a set in which one validator can vote nil and another
+// stay silent while the rest still commits (the "backfill two targets" template needs that)
+func (w *world) wideValset() valset {
+	n := 7 + w.r.below(2)
+	perm := w.r.permPrefix(poolSize, n)
+	pows := make([]uint64, n)
+	for i := range pows {
+		pows[i] = uint64(10 + w.r.below(3))
+	}
+	return w.mkValset(perm, pows)
+}
+
 func (r *rng) permPrefix(n, k int) []int {
 	p := make([]int, n)
 	for i := range p {
@@ -578,6 +600,13 @@ type runner struct {
 	forceReplay int // the next replay uses this variant
 	phViaAction bool // the proposal being built is the state machine's own: it reaches the mirror as an action
 	lastAct     *actRec // the last vote the state machine handed over (for duplicates)
+	backfillH      uint64 // the "backfill two targets" template: height / round being committed by a bare quorum,
+	backfillR      uint32
+	backfillHeld   []int  // validators that stayed silent, one per backfilling proposal
+	backfillTarget string
+	forceWide      bool  // set while a scripted proposal is built: announce a wide next validator set
+	forceBackfill  []int // set while a scripted proposal is built: keep every entry of the commit proof, add these signers
+
 	script []string // scripted operations still to run: interleaving templates that random choice rarely lines up
 
 	io               string   // what a consumer operation received (tr), consumed by the next observe()
@@ -1274,12 +1303,19 @@ func (rn *runner) step() {
 		if rn.scripted(op, &v, &c) {
 			return
 		}
+		rn.stats["script_abort_at_"+op]++
 		rn.script = nil
-	} else if rn.pendingCrash < 0 && w.r.chance(1, 12) {
+	} else if rn.pendingCrash < 0 && w.r.chance(1, templateEvery()) {
 		// interleaving templates; with consumers the races between the state machine and view shifts come first
-		y := w.r.below(6)
+		y := w.r.below(8)
+		if y >= 6 {
+			y += 2
+		}
 		if rn.consumers && !concurrentMode && w.r.chance(1, 3) {
 			y = 6 + w.r.below(2)
+		}
+		if forcedTemplate >= 0 {
+			y = forcedTemplate
 		}
 		canEnter := !rn.entered || v.Height > rn.lastEnterH || (v.Height == rn.lastEnterH && v.Round >= rn.lastEnterR)
 		switch {
@@ -1309,6 +1345,19 @@ func (rn *runner) step() {
 			// a whole round in which the local validator takes part: its proposal, its votes next to everybody's
 			rn.stats["script_local_round"]++
 			rn.script = []string{"enter-voting?", "act-ph", "act-prevote", "prevote-all", "act-precommit", "smread", "precommit-all", "act-precommit", "gread"}
+		case y == 8:
+			// a block is committed by a bare quorum while one validator precommits nil and two stay silent; the next
+			// height's proposals then carry a commit proof with BOTH entries, one of which adds a silent validator's
+			// precommit to the committing view (backfill) while the other adds nothing
+			rn.stats["script_backfill_two_targets"]++
+			rn.script = []string{"propose-wide", "precommit-all", "propose-wide", "precommit-all", "propose", "precommit-nil-one", "precommit-most", "propose-backfill", "gread", "propose-backfill", "smread", "gread"}
+		case y == 9:
+			// a fork attempt by a Byzantine majority: a block is committed by a bare quorum, then EVERY validator's
+			// precommit for another block of that height and round arrives late (the committing view now holds more
+			// power for the other block), then a proposal for the next height names that other block as its
+			// predecessor and carries its certificate, and everyone precommits whatever proposal the mirror holds
+			rn.stats["script_fork_attempt"]++
+			rn.script = []string{"propose", "precommit-nil-one", "precommit-most", "late-fork-precommits", "propose-fork", "precommit-all", "gread"}
 		case y == 5:
 			// a commit attempt made of ONE validator's precommit filed under every key id
 			rn.stats["script_one_signature_for_all"]++
@@ -1809,6 +1858,59 @@ func (rn *runner) hungExit() {
 	os.Exit(3)
 }
 
+// backfillPlan picks, for the "backfill two targets" template, the nil voter (least power) and up to two silent
+// validators of low power such that the remaining ones (rest) still hold a Byzantine majority; ok = false if the
+// others cannot commit without the nil voter.
+func backfillPlan(pows []uint64) (nilIdx int, silent, rest []int, ok bool) {
+	n := len(pows)
+	if n < 2 {
+		return 0, nil, nil, false
+	}
+	var total uint64
+	for _, p := range pows {
+		total += p
+	}
+	if total == 0 {
+		return 0, nil, nil, false
+	}
+	maj := tmconsensus.ByzantineMajority(total)
+	order := lowestIdx(pows, n)
+	nilIdx = order[0]
+	have := total - pows[nilIdx]
+	if have < maj {
+		return 0, nil, nil, false
+	}
+	for _, i := range order[1:] {
+		if len(silent) < 2 && have-pows[i] >= maj {
+			have -= pows[i]
+			silent = append(silent, i)
+		}
+	}
+	for i := 0; i < n; i++ {
+		isSilent := false
+		for _, x := range silent {
+			isSilent = isSilent || x == i
+		}
+		if !isSilent && i != nilIdx {
+			rest = append(rest, i)
+		}
+	}
+	return nilIdx, silent, rest, true
+}
+
+// lowestIdx returns the indices of the k smallest powers (ties: lower index first).
+func lowestIdx(pows []uint64, k int) []int {
+	idx := make([]int, len(pows))
+	for i := range idx {
+		idx[i] = i
+	}
+	sort.SliceStable(idx, func(a, b int) bool { return pows[idx[a]] < pows[idx[b]] })
+	if len(idx) > k {
+		idx = idx[:k]
+	}
+	return idx
+}
+
 // scripted runs one operation of an interleaving template against the mirror's current position;
 // false: the template no longer applies.
 func (rn *runner) scripted(op string, v, c *tmconsensus.VersionedRoundView) bool {
@@ -1857,6 +1959,69 @@ func (rn *runner) scripted(op string, v, c *tmconsensus.VersionedRoundView) bool
 			}
 		}
 		rn.doVotes(kindPrecommit, H, R, pkh, []voteEntry{{target, sigs}})
+	case "precommit-nil-one", "precommit-most":
+		// the validator of least power precommits nil, up to two more of low power stay silent until the backfill
+		nilIdx, silent, rest, ok := backfillPlan(cur.pows)
+		if os.Getenv("VERIF_DEBUG_SCRIPT") != "" {
+			fmt.Fprintf(os.Stderr, "SCRIPT %s H=%d R=%d pows=%v nil=%d silent=%v rest=%v ok=%v target=%q\n", op, H, R, cur.pows, nilIdx, silent, rest, ok, target)
+		}
+		if !ok {
+			return false
+		}
+		if op == "precommit-nil-one" {
+			// the backfilling proposals add, one each, the silent validators' precommits for the block (a commit proof
+			// must not contain two votes of one validator, so the nil voter cannot be added)
+			rn.backfillH, rn.backfillR, rn.backfillHeld, rn.backfillTarget = H, R, append([]int{}, silent...), target
+			rn.doVotes(kindPrecommit, H, R, pkh, []voteEntry{{"", rn.mkSigs(cur, kindPrecommit, H, R, "", []int{nilIdx}, 0)}})
+		} else {
+			if target == "" || rn.backfillH != H || rn.backfillR != R {
+				return false
+			}
+			rn.doVotes(kindPrecommit, H, R, pkh, []voteEntry{{target, rn.mkSigs(cur, kindPrecommit, H, R, target, rest, 0)}})
+		}
+	case "propose-wide":
+		rn.forceWide = true
+		rn.proposal(v, c, H, R, 0)
+		rn.forceWide = false
+	case "late-fork-precommits":
+		if c.Height != rn.backfillH || c.Round != rn.backfillR || H != rn.backfillH+1 {
+			return false
+		}
+		vsC := rn.valsFor(c.Height)
+		rn.doVotes(kindPrecommit, c.Height, c.Round, string(vsC.vs.PubKeyHash), []voteEntry{{"not-the-committed-block",
+			rn.mkSigs(vsC, kindPrecommit, c.Height, c.Round, "not-the-committed-block", allIdx(len(vsC.keys)), 0)}})
+	case "propose-fork":
+		if c.Height != rn.backfillH || H != rn.backfillH+1 {
+			return false
+		}
+		rn.proposal(v, c, H, R, 11)
+	case "propose-backfill":
+		if os.Getenv("VERIF_DEBUG_SCRIPT") != "" {
+			fmt.Fprintf(os.Stderr, "SCRIPT %s H=%d c=%d/%d bf=%d/%d held=%v\n", op, H, c.Height, c.Round, rn.backfillH, rn.backfillR, rn.backfillHeld)
+		}
+		if H != rn.backfillH+1 || c.Height != rn.backfillH || c.Round != rn.backfillR || len(rn.backfillHeld) == 0 {
+			return false
+		}
+		rn.forceBackfill = []int{rn.backfillHeld[0]}
+		rn.backfillHeld = rn.backfillHeld[1:]
+		rn.stats["script_backfill_proposal"]++
+		before := rn.stats["ph_res_1"]
+		rn.proposal(v, c, H, R, 0)
+		if rn.stats["ph_res_1"] > before {
+			rn.stats["script_backfill_proposal_accepted"]++
+		}
+		if os.Getenv("VERIF_DEBUG_SCRIPT") != "" {
+			_, c2 := rn.views()
+			nb := func(x *tmconsensus.VersionedRoundView) string {
+				out := ""
+				for k, p := range x.PrecommitProofs {
+					out += fmt.Sprintf(" %x:%d", []byte(k)[:min(len(k), 2)], len(p.AsSparse().Signatures))
+				}
+				return out
+			}
+			fmt.Fprintf(os.Stderr, "SCRIPT backfill result: committing before v=%d pcv=%d [%s] after v=%d pcv=%d [%s]\n", c.Version, c.PrecommitVersion, nb(c), c2.Version, c2.PrecommitVersion, nb(&c2))
+		}
+		rn.forceBackfill = nil
 	case "prevote-all":
 		rn.doVotes(kindPrevote, H, R, pkh, []voteEntry{{target, rn.mkSigs(cur, kindPrevote, H, R, target, allIdx(n), 0)}})
 	case "precommit-all":
@@ -1991,7 +2156,9 @@ func (rn *runner) proposal(v, c *tmconsensus.VersionedRoundView, H uint64, R uin
 	}
 	cur := rn.valsFor(h)
 	next, haveNext := rn.valsAt[h+1]
-	if !haveNext {
+	if !haveNext && rn.forceWide {
+		next = w.wideValset()
+	} else if !haveNext {
 		next = w.randValset()
 		if w.r.chance(1, 3) {
 			next = cur // unchanged set
@@ -2018,7 +2185,12 @@ func (rn *runner) proposal(v, c *tmconsensus.VersionedRoundView, H uint64, R uin
 			}
 		}
 	}
-	if variant == 0 && c.Height > 0 && w.r.chance(4, 5) {
+	if variant == 0 && rn.forceBackfill != nil {
+		main := rn.backfillTarget
+		vsC := rn.valsFor(c.Height)
+		pcp.Proofs[main] = append(pcp.Proofs[main], rn.mkSigs(vsC, kindPrecommit, c.Height, pcp.Round, main, rn.forceBackfill, 0)...)
+		rn.stats["backfill_extra_sig"]++
+	} else if variant == 0 && c.Height > 0 && w.r.chance(4, 5) {
 		// a careful proposer only carries the precommits for the committed block
 		main := c.VoteSummary.MostVotedPrecommitHash
 		for k := range pcp.Proofs {
@@ -2027,7 +2199,7 @@ func (rn *runner) proposal(v, c *tmconsensus.VersionedRoundView, H uint64, R uin
 			}
 		}
 	}
-	if variant == 0 && h == H && c.Height+1 == h && c.Height > 0 && w.r.chance(1, 3) {
+	if variant == 0 && rn.forceBackfill == nil && h == H && c.Height+1 == h && c.Height > 0 && w.r.chance(1, 3) {
 		// an honest proposer that saw more precommits for the committed block than we did
 		main := c.VoteSummary.MostVotedPrecommitHash
 		vsC := rn.valsFor(c.Height)
@@ -2270,6 +2442,7 @@ func main() {
 	flag.BoolVar(&consumerMode, "consumers", false, "act as state machine and gossip reader")
 	flag.BoolVar(&hazardMode, "hazards", false, "also generate the inputs recorded as known findings (they kill the kernel)")
 	flag.BoolVar(&replayMode, "replay", false, "feed replayed headers (mirror catch-up)")
+	flag.IntVar(&forcedTemplate, "template", -1, "always pick this interleaving template (and start one every 3rd operation)")
 	flag.BoolVar(&concurrentMode, "concurrent", false, "batches of overlapping messages from concurrent callers (observations only)")
 	flag.Parse()
 	out := os.Stdout
